@@ -16,3 +16,17 @@ type plainError string
 func (e plainError) RuntimeError() {}
 
 func (e plainError) Error() string { return string(e) }
+
+// z_error.go: run-time panics with the "runtime error: " prefix
+type errorString string
+
+func (e errorString) RuntimeError() {}
+
+func (e errorString) Error() string { return "runtime error: " + string(e) }
+
+// stubs.go: the allocation limit NewChan checks (same formulas)
+const (
+	_64bit       = 1 << (^uintptr(0) >> 63) / 2
+	heapAddrBits = (_64bit)*48 + (1-_64bit)*(32)
+	maxAlloc     = (1 << heapAddrBits) - (1-_64bit)*1
+)
